@@ -255,6 +255,7 @@ GUARD_PREDS = {
     "uses_sequence": "fun k => negb (uses_sequence (rc_universe k))",
     "in_guard_qname": "fun k => negb (in_guard_w k && uses_qname k)",
     "in_guard_recursive": "fun k => negb (in_guard_w k && uses_recursion (rc_universe k))",
+    "in_guard_xsi": "fun k => negb (in_guard_w k && uses_xsi_type k)",
     "guard-oracle": "oracle_in_guard",
     "corr-generate-in-guard": "fun k => negb (in_guard_w k) || gen_agree k",
     "corr-parse-in-guard": "fun k => negb (in_guard_w k) || parse_agree k",
@@ -302,6 +303,7 @@ def guard_layer(ck, jobs, stats):
     stats["guard_inside_with_sequence_group"] = len(bad["in_guard_sequence"])
     stats["guard_inside_with_qname_values"] = len(bad["in_guard_qname"])
     stats["guard_inside_with_recursive_class"] = len(bad["in_guard_recursive"])
+    stats["guard_inside_with_subclass_instance"] = len(bad["in_guard_xsi"])
     stats["guard_inside_share"] = round(len(inside) / max(1, len(terms)), 3)
     stats["guard_skipped"] = skipped
     for cls in ("guard-oracle", "corr-generate-in-guard", "corr-parse-in-guard", "guard-theorem-instance",
